@@ -32,7 +32,7 @@ def run(ctx):
     probs = []
     for kap in ((0, 1), (-1, 400), (3, 1000)):
         for g1 in ((0, 1), (1, 50)):
-            for h in ((1, 1), (2, 1), (1, 2), (7, 3)):
+            for h in ((1, 1), (2, 1), (1, 2), (7, 4)):      # steps are timedeltas: only microsecond-representable values
                 probs.append([kap, (1, 3), g1, (5, 1), (-2, 3), (3, 2), h])
     if not thorough:
         probs = probs[::2]
